@@ -1084,6 +1084,8 @@ func (sq *Queue) RemoveApplication(app *Application) {
 	delete(sq.allocatingAcceptedApps, appID)
 	priority := sq.recalculatePriority()
 	sq.Unlock()
+	// the application is tracked as allocating on every ancestor (see setAllocatingAccepted): clean up all of them
+	sq.parent.clearAllocatingAccepted(appID)
 	app.appEvents.SendRemoveApplicationEvent(appID)
 
 	sq.parent.UpdateQueuePriority(sq.Name, priority)
@@ -2067,6 +2069,17 @@ func (sq *Queue) decRunningApps() {
 // setAllocatingAccepted tracks the application in accepted state that have placeholders allocated.
 // These applications are considered "running" inside the queue for max running applications' enforcement.
 // For this queue (recursively).
+// clearAllocatingAccepted removes the application from the allocating accepted apps of this queue and all its parents.
+func (sq *Queue) clearAllocatingAccepted(appID string) {
+	if sq == nil {
+		return
+	}
+	sq.parent.clearAllocatingAccepted(appID)
+	sq.Lock()
+	defer sq.Unlock()
+	delete(sq.allocatingAcceptedApps, appID)
+}
+
 func (sq *Queue) setAllocatingAccepted(appID string) {
 	if sq == nil {
 		return
